@@ -79,7 +79,7 @@ func (g *Grammar) valid() error {
 		}
 		need := -1
 		switch n.Op {
-		case "rune", "urune", "op", "empty", "int", "float", "str", "char", "bool", "nil", "word", "regexp", "dur", "end":
+		case "rune", "urune", "unode", "op", "empty", "int", "float", "str", "char", "bool", "nil", "word", "regexp", "dur", "end":
 			need = 0
 		case "opt", "many", "many1", "ltrim", "rtrim", "single", "suppress", "ref", "sentence", "memo":
 			need = 1
@@ -95,7 +95,7 @@ func (g *Grammar) valid() error {
 		if need >= 0 && len(n.Kids) != need {
 			return fmt.Errorf("node %d: %s needs %d kids", i, n.Op, need)
 		}
-		if (n.Op == "rune" || n.Op == "urune" || n.Op == "op" || n.Op == "word") && n.Arg == "" {
+		if (n.Op == "rune" || n.Op == "urune" || n.Op == "unode" || n.Op == "op" || n.Op == "word") && n.Arg == "" {
 			return fmt.Errorf("node %d: empty literal", i)
 		}
 	}
@@ -129,6 +129,45 @@ var concatInterp = ast.InterpreterFunc(func(userCtx interface{}, node parsley.No
 	}
 	sb.WriteString(")")
 	return sb.String(), nil
+})
+
+// userNode is a node type defined by the user of the library (not one of ast / terminal):
+// a literal leaf with an in-place SetReaderPos, like the library's own leaves.
+type userNode struct {
+	tok       string
+	val       interface{}
+	pos, rpos parsley.Pos
+}
+
+func (u *userNode) Token() string          { return u.tok }
+func (u *userNode) Schema() interface{}    { return nil }
+func (u *userNode) Pos() parsley.Pos       { return u.pos }
+func (u *userNode) ReaderPos() parsley.Pos { return u.rpos }
+func (u *userNode) Value() interface{}     { return u.val }
+func (u *userNode) SetReaderPos(f func(parsley.Pos) parsley.Pos) {
+	u.rpos = f(u.rpos)
+}
+
+// userRune is a user-supplied leaf parser producing userNode values.
+func userRune(ch rune) parsley.Parser {
+	nf := parsley.NotFoundError("user " + string(ch))
+	return parser.Func(func(ctx *parsley.Context, lrc data.IntMap, pos parsley.Pos) (parsley.Node, data.IntSet, parsley.Error) {
+		tr := ctx.Reader().(*text.Reader)
+		if rp, ok := tr.ReadRune(pos, ch); ok {
+			return &userNode{tok: "U" + string(ch), val: string(ch), pos: pos, rpos: rp}, data.EmptyIntSet, nil
+		}
+		return nil, data.EmptyIntSet, parsley.NewError(pos, nf)
+	})
+}
+
+// userHandler is a user-supplied SeqResultHandler (copies the node window, as documented).
+var userHandler = combinator.SeqResultHandlerFunc(func(pos parsley.Pos, token string, nodes []parsley.Node, interp parsley.Interpreter) parsley.Node {
+	if len(nodes) == 0 {
+		return ast.NewEmptyNonTerminalNode("U"+token, pos, interp)
+	}
+	cp := make([]parsley.Node, len(nodes))
+	copy(cp, nodes)
+	return ast.NewNonTerminalNode("U"+token, cp, interp)
 })
 
 // prebuiltErr: a positioned parsley.Error value created when the grammar is constructed.
@@ -169,6 +208,8 @@ func build(g *Grammar, o *buildOpts) *built {
 		switch nd.Op {
 		case "rune":
 			p = terminal.Rune([]rune(nd.Arg)[0])
+		case "unode":
+			p = userRune([]rune(nd.Arg)[0])
 		case "urune":
 			// a user-supplied leaf parser: the other place (besides interpreters) where a
 			// caller can be aborted by a panic in user code while a parse is in flight
@@ -243,6 +284,8 @@ func build(g *Grammar, o *buildOpts) *built {
 		if seq != nil {
 			if nd.Arg == "single" {
 				seq = seq.HandleResult(combinator.ReturnSingle())
+			} else if nd.Arg == "custom" {
+				seq = seq.HandleResult(userHandler)
 			}
 			if o.Interp && nd.Op != "sentence" {
 				seq = seq.Bind(concatInterp)
@@ -315,7 +358,7 @@ func (m *refMemo) Parse(ctx *parsley.Context, lrc data.IntMap, pos parsley.Pos) 
 
 func isLeafOp(op string) bool {
 	switch op {
-	case "rune", "urune", "op", "empty", "int", "float", "str", "char", "bool", "nil", "word", "regexp", "dur", "end":
+	case "rune", "urune", "unode", "op", "empty", "int", "float", "str", "char", "bool", "nil", "word", "regexp", "dur", "end":
 		return true
 	}
 	return false
@@ -496,6 +539,8 @@ func (x *gen) leaf() int {
 		n.Op = "rune"
 		if x.o.User && r.Chance(1, 3) {
 			n.Op = "urune"
+		} else if r.Chance(1, 8) {
+			n.Op = "unode" // a user-defined node type flows through the combinators
 		}
 		n.Arg = string(r.Pick(x.o.Alphabet))
 	}
@@ -542,6 +587,8 @@ func (x *gen) node(depth int) int {
 			nk = r.Range(1, 3)
 			if r.Chance(1, 6) {
 				n.Arg = "single"
+			} else if r.Chance(1, 8) {
+				n.Arg = "custom" // user-supplied result handler
 			}
 		case "any", "choice":
 			nk = r.Range(2, 3)
@@ -628,7 +675,7 @@ func (g *Grammar) sample(r *Rand, i, depth int, sb *strings.Builder) {
 		}
 	}
 	switch nd.Op {
-	case "rune", "urune", "op", "word":
+	case "rune", "urune", "unode", "op", "word":
 		sb.WriteString(nd.Arg)
 	case "int":
 		sb.WriteString([]string{"1", "42", "-7", "0x1f", "012"}[r.Intn(5)])
